@@ -385,6 +385,13 @@ public:
     virtual void process_list_end() = 0;
     virtual void done() = 0;  // marks the end of the file
 
+    /** The number of scopes the builder has open. A block that ends inside a scope-opening construct (a quantifier
+     * cut short by the end of a label) never reaches the callback that closes the scope: the parser notes the depth
+     * before it parses a block and hands it to restore_scope() afterwards. Builders without scopes keep the defaults. */
+    virtual size_t scope_depth() const { return 0; }
+    /** Closes the scopes opened beyond the given depth. */
+    virtual void restore_scope(size_t depth) {}
+
     virtual void handle_expect(const char* text) = 0;
 
     /********************************************************************
